@@ -348,3 +348,65 @@ def _mk_pref(name, system, pal, tiers, timeout):
 
 _mk_pref("standard", ColorSystem.STANDARD, STANDARD_PALETTE, ("quick", "thorough"), 1500)
 _mk_pref("windows", ColorSystem.WINDOWS, WINDOWS_PALETTE, ("quick", "thorough"), 1500)
+
+
+# --- conversion histories with the real caches (P, native): converted colours converted again; neighbouring colours ---------
+def _is_min(pal, rgb, number) -> bool:
+    ds = [_dist(rgb[0], rgb[1], rgb[2], tuple(pal._colors[j])) for j in range(len(pal._colors))]
+    return 0 <= number < len(ds) and ds[number] == min(ds)
+
+
+_GRID = [0, 32, 64, 96, 128, 160, 192, 224, 255]
+
+
+@symx("C18-conversion-history", timeout=900, kind="P", functions=F_MATCH,
+      bounds="colours #rrggbb with every component from %r (729 colours, parsed by name so that converted colours share the name): "
+             "converted to 8-bit, standard and windows, then each CONVERTED colour is converted again to each system, and the "
+             "original once more (real caches, real sqrt): a colour already representable comes back unchanged, an 8-bit colour "
+             "goes to an entry of minimum distance from ITS palette colour, repeated conversions agree, and a differently named "
+             "colour of the same value agrees" % (_GRID,),
+      outside="colours off the grid for this history (single conversions of all 2^24 colours: C18-a / C18-b)")
+def c18_history(e):
+    r, g, b = (_GRID[int(e.mk(k, 0, 8))] for k in "rgb")
+    c = Color.parse("#%02x%02x%02x" % (r, g, b))
+    key = lambda x: (x.type, x.number, tuple(x.triplet) if x.triplet else None)  # noqa: E731
+    c256, c16, cw = c.downgrade(ColorSystem.EIGHT_BIT), c.downgrade(ColorSystem.STANDARD), c.downgrade(ColorSystem.WINDOWS)
+    if c256.type != ColorType.EIGHT_BIT or c16.type != ColorType.STANDARD or cw.type != ColorType.WINDOWS:
+        return False
+    if not (_is_min(STANDARD_PALETTE, (r, g, b), c16.number) and _is_min(WINDOWS_PALETTE, (r, g, b), cw.number)):
+        return False
+    # representable colours are unchanged
+    if key(c16.downgrade(ColorSystem.EIGHT_BIT)) != key(c16) or key(c16.downgrade(ColorSystem.STANDARD)) != key(c16):
+        return False
+    if key(c256.downgrade(ColorSystem.EIGHT_BIT)) != key(c256) or key(c.downgrade(ColorSystem.TRUECOLOR)) != key(c):
+        return False
+    # an 8-bit colour is converted from its own palette colour, not from the colour it once came from
+    own = tuple(EIGHT_BIT_PALETTE._colors[c256.number])
+    d16, dw = c256.downgrade(ColorSystem.STANDARD), c256.downgrade(ColorSystem.WINDOWS)
+    if c256.number >= 16 and not (_is_min(STANDARD_PALETTE, own, d16.number) and _is_min(WINDOWS_PALETTE, own, dw.number)):
+        return False
+    # repeated and differently named conversions agree
+    other = Color("other", ColorType.TRUECOLOR, None, ColorTriplet(r, g, b))
+    for system, first in ((ColorSystem.EIGHT_BIT, c256), (ColorSystem.STANDARD, c16), (ColorSystem.WINDOWS, cw)):
+        if key(c.downgrade(system)) != key(first) or key(other.downgrade(system)) != key(first):
+            return False
+    return True
+
+
+@symx("C18-match-history-neighbours", timeout=900, kind="P", functions=["rich/palette.py:Palette.match"],
+      bounds="pairs of colours that are neighbours when (r,g,b) is read as one number - (r,g,255)/(r,g+1,0) and (r,255,b)/(r+1,0,b) "
+             "for every g resp. r in 0..254 and the third component in {0,100,255} - matched one after the other, in both orders, "
+             "on the standard, windows and 8-bit palettes (real caches): each result is an entry of minimum distance for ITS colour",
+      outside="other pairs (2^48); the single-conversion obligations cover every colour on a fresh cache")
+def c18_neighbours(e):
+    v = int(e.mk("v", 0, 254))
+    third = [0, 100, 255][int(e.mk("third", 0, 2))]
+    family = int(e.mk("family", 0, 1))
+    pair = [(third, v, 255), (third, v + 1, 0)] if family == 0 else [(v, 255, third), (v + 1, 0, third)]
+    if e.mkbool("reverse"):
+        pair.reverse()
+    for pal in (STANDARD_PALETTE, WINDOWS_PALETTE, EIGHT_BIT_PALETTE):
+        for rgb in pair:
+            if not _is_min(pal, rgb, pal.match(ColorTriplet(*rgb))):
+                return False
+    return True
